@@ -340,8 +340,13 @@ package parquet
 //@   modifies heap("parquet.readCounter"), srcPos, rd, vPage, vDefs, curNV
 //@   ensures err == nil ==> dyn(res0) == typeid("*bytes.Buffer") && payload(res0) != 0 && freshsince(cast("*bytes.Buffer", res0))
 //@   ensures[C10] err == nil ==> (rfault ==> old(rfault))
+// C04/C08: a chunk is read as a sequence of pages from where the source stands (the reader
+// uses no offsets): after k pages the cursor is at the start of page k+1 of that walk and the
+// values counted are those of the k pages
 //@ loop (*RequiredField).DoRead#1
 //@   invariant (rfault ==> old(rfault)) && freshOrNil(out) && freshOrNil(sizes)
+//@   invariant[C04,C08] (pg.Codec == 1 || pg.Codec == 2) ==> srcPos == pagePos(srcB, old(srcPos), #sizes)
+//@   invariant[C04,C08] nRead == nvSum(srcB, old(srcPos), #sizes) || !(pg.Codec == 1 || pg.Codec == 2)
 
 //@ func (*OptionalField).DoRead
 //@   verify[C04]
@@ -357,7 +362,7 @@ package parquet
 //@   ensures sameOrFresh(f.Defs) && sameOrFresh(f.Reps) && f.MaxLevels == old(f.MaxLevels)
 //@ loop (*OptionalField).DoRead#1
 //@   invariant[C04] f.repeated ==> #f.Reps - old(#f.Reps) == #f.Defs - old(#f.Defs)
-//@   invariant[C08] srcPos == old(srcPos) + nRead
+//@   invariant[C04,C08] srcPos == old(srcPos) + nRead
 //@   invariant (rfault ==> old(rfault)) && freshOrNil(out) && freshOrNil(sizes) && sameOrFresh(f.Defs) && sameOrFresh(f.Reps) && f.MaxLevels == old(f.MaxLevels) && f.repeated == old(f.repeated)
 
 //@ func (*OptionalField).Values
